@@ -191,5 +191,21 @@ Theorem C11_cns_table_entries_bounded : forall (n k : nat) (W : Z), binom n (Nat
   forall i j, (i <= n)%nat -> (j <= k)%nat -> 0 <= binom i j < W.
 Proof. exact binom_table_bounded. Qed.
 Print Assumptions C11_cns_table_entries_bounded.
-(* Not modelled: the wrap-around test of the constructor itself (B[mi][i] < B[mi][i-1] on unsigned __int128), i.e. that it throws
-   whenever C(n, min(n/2,k)) >= 2^128.  Compared at the boundary C(131,65) < 2^128 <= C(132,66) by the differential run. *)
+(* the overflow test of the constructor itself, on a W-bit unsigned type (every addition wraps; after row i >= 2 the entry
+   B[min(i/2,k)][i] is compared with the one above it): the constructor returns exactly when the largest entry fits, and then the
+   columns 0..k of its last row are the binomial coefficients; otherwise it throws *)
+Theorem C11_cns_constructor_overflow_test : forall (W : Z) (k : nat), 2 <= W -> forall i : nat,
+  match cns_ctor_rows W k i with
+  | Some r => binom i (Nat.min (i / 2) k) < W /\ forall j, (j <= k)%nat -> nth j r 0 = binom i j
+  | None => W <= binom i (Nat.min (i / 2) k)
+  end.
+Proof. exact cns_ctor_spec. Qed.
+Print Assumptions C11_cns_constructor_overflow_test.
+
+Theorem C11_cns_constructor_accepts_iff : forall k n : nat,
+  cns_ctor_ok k n = true <-> binom n (Nat.min (n / 2) k) < 2 ^ 128.
+Proof. exact cns_ctor_ok_iff. Qed.
+Print Assumptions C11_cns_constructor_accepts_iff.
+
+Example C11_cns_constructor_boundary : cns_ctor_ok 102 131 = true /\ cns_ctor_ok 102 132 = false /\ cns_ctor_ok 20 200 = true.
+Proof. vm_compute. repeat split. Qed.
